@@ -9,7 +9,7 @@ CHECKS = {
  "C01": ("exploration", "runtime monitoring: reference-model monitor (Go slice) on every return value + independent structural walker after every operation + cold reopen from registers; deep-tree cases (depth >= 4, even/odd index-split parities), drains by single removals, small-scope exhaustive sequences",
          "Seeded hostile operation histories on the real library; every returned element/previous element/count/type/error is compared with an in-memory sequence after each operation, the slab tree is walked by an independent monitor, and the array is reopened by root id warm and from registers only. Held-on-what-was-observed, not a proof.",
          "Trusts the harness' model/walker, test_utils value types, the Go toolchain. Covers only generated histories and the slab sizes drawn.", "DESIGN.md §4 C01"),
- "C02": ("exploration", "runtime monitoring: reference-model monitor (Go map) on every return value + structural walker incl. digest-of-key filing check + cold reopen",
+ "C02": ("exploration", "runtime monitoring: reference-model monitor (Go map) on every return value + structural walker incl. digest-of-key filing check + cold reopen; default digester, harness digesters and a colliding hash-input provider under the default digester; deep-tree cases, batch-built start states, evictions / reopens inside the histories",
          "Seeded hostile histories on the real ordered map under the default and an order-revealing digester; every result compared with a dictionary model, structure and digest filing walked after each operation.",
          "Trusts the harness' model/walker and test_utils key types. Covers only generated histories.", "DESIGN.md §4 C02"),
  "C03": ("exploration", "runtime monitoring: ledger-proxy monitor (no write outside commit, no zero-address write) + crash point after every operation + cold rebuild from registers vs model snapshot of the last commit",
@@ -18,16 +18,16 @@ CHECKS = {
  "C05": ("exploration", "runtime monitoring: independent structural invariant walker at quiescent points after every operation under a hostile size workload (incl. deep-tree cases and directed collapse cases in which a Remove makes the tree grow while the root index slab is nearly full) + exhaustive sweep of all 32513 slab-size settings",
          "Independent walker over live slabs (size bands, element limits, header/child agreement, prefix sums, digests, sibling links, root fan-out) after every operation of hostile-size histories; the threshold arithmetic is checked for every legal slab size (exhaustive).",
          "Size constants restated in the harness are cross-checked against real encodings by C06. Histories are sampled.", "DESIGN.md §4 C05"),
- "C06": ("exploration", "runtime monitoring: byte-level monitor - every dirtied slab is encoded after every operation and the register is split with an independent CBOR decoder; equality with the reported size incl. the exact compact-map saving",
+ "C06": ("exploration", "runtime monitoring: byte-level monitor - every dirtied slab is encoded after every operation and the register is split with an independent CBOR decoder; equality with the reported size incl. the exact compact-map saving; batch-built and byte-converted containers, wide-parent cases (more than 256 inlined children per slab), composite values with up to 34 fields, long and many type infos",
          "Reported sizes are compared by EQUALITY with the bytes actually written for every dirtied slab after every operation and for every register at commits, including the two documented savings computed exactly.",
          "Trusts the fxamacker/cbor stream decoder for splitting items. Histories are sampled.", "DESIGN.md §4 C06"),
- "C07": ("exploration", "runtime monitoring: round-trip monitor - decode/re-encode byte identity, decoded-vs-live content comparison and independently computed header-flag truth for every dirtied slab and every committed register",
+ "C07": ("exploration", "runtime monitoring: round-trip monitor - decode/re-encode byte identity, decoded-vs-live content comparison and independently computed header-flag truth for every dirtied slab and every committed register; batch-built and byte-converted containers, wide-parent cases, composite values with up to 34 fields, long and many type infos",
          "Every slab state produced by the workloads is encoded, decoded, re-encoded and compared byte-for-byte and field-by-field; head flags are recomputed from content; in-repo serialization verifiers run as secondary oracle.",
          "Only version-1 registers are produced by the library. Slab states are those reached by sampled histories.", "DESIGN.md §4 C07"),
- "C08": ("exploration", "runtime monitoring: differential schedules - one history executed under 6 schedules of commit / drop-cache / reopen with model comparison in each and byte-equality of final registers across schedules",
+ "C08": ("exploration", "runtime monitoring: differential schedules - one history executed under 6 schedules of commit / drop-cache / reopen with model comparison in each and byte-equality of final registers across schedules; schedule-independence of the tree shape; wide-parent cases",
          "Each history runs under never-commit, commit-every-op, commit+drop-cache, full reopen, drop-cache-only and a mixed schedule; return values are checked against the model in every schedule and final registers must be byte-identical (content-identical for the composite-typed bucket).",
          "Composite bucket decided at case creation. Histories and schedules are sampled.", "DESIGN.md §4 C08"),
- "C09": ("exploration", "runtime monitoring: reachability monitor after every operation - ids resolvable in storage (universe recorded by a storage proxy) vs ids reached by an independent walk from live roots; same on registers after commits",
+ "C09": ("exploration", "runtime monitoring: reachability monitor after every operation - ids resolvable in storage (universe recorded by a storage proxy) vs ids reached by an independent walk from live roots; same on registers after commits; drains by single removals, batch-built containers, blind disposal of unloaded persisted slabs",
          "The storage proxy records every id ever generated; after every operation the set of resolvable ids must equal the set reached from the live roots exactly once each; drained containers must occupy one slab.",
          "The harness disposes of every storable handed back (like cmd/smoke). Histories are sampled.", "DESIGN.md §4 C09"),
  "C10": ("exploration", "runtime monitoring: reference-model monitor from the ROOT after every child mutation through long-lived handles + inline-rule walker + cold rebuild at commits",
